@@ -54,7 +54,11 @@ m = {
         {"name": "zv", "path": "engines/zv", "serves_properties": [p for p in sorted(PROPS) if TEXT[p].get("engine", "zv") == "zv"],
          "kind_free_text": "zvariant under generated workloads with reference-model monitors, sharded processes, panic/alloc/fd monitors; rebuilt per feature set and sanitizer layer"},
         {"name": "zb", "path": "engines/zb", "serves_properties": [p for p in sorted(PROPS) if TEXT[p].get("engine") == "zb"],
-         "kind_free_text": "zbus connection core over a scripted transport with a deterministic scheduler, history monitors"},
+         "kind_free_text": "zbus connection core over a scripted transport with a deterministic scheduler, history monitors; scripted raw peer and scripted message bus"},
+        {"name": "zg", "path": "engines/zg", "serves_properties": [p for p in sorted(PROPS) if TEXT[p].get("engine") == "zg"],
+         "kind_free_text": "generated interface programs (engines/gen/gen_ifaces.py, regenerated from VERIF_SEED before each build) served by the real object server over the scripted transport"},
+        {"name": "zt", "path": "engines/zt", "serves_properties": [p for p in sorted(PROPS) if TEXT[p].get("engine") == "zt"],
+         "kind_free_text": "generated type definitions (engines/gen/gen_types.py) compiled against zvariant's derives, judged by the reference decoder"},
     ],
     "checks": checks,
     "not_applicable": na,
